@@ -191,9 +191,8 @@ pub fn has_maxlen_neighbours(d: &Data) -> bool {
 //------------ laws ------------------------------------------------------------
 
 fn h<T: Hash>(x: &T) -> u64 {
-    let mut s = DefaultHasher::new();
-    x.hash(&mut s);
-    s.finish()
+    // SipHash and a word-at-a-time hasher (sensitive to the sequence of write calls)
+    crate::core::hash2_of(x)
 }
 
 fn pick_asn(rng: &mut Rng) -> u32 {
